@@ -41,6 +41,10 @@
     repeated indices as produced by `broadcast_to` / zero strides).
   * Lists of unequal length follow `List.zipWith` (truncate); the intended inputs
     satisfy the decidable predicate `WF d st o`.
+
+  Added at the end of the file: the plain `Mean` accumulator (`MSt`, `mReadObs`,
+  `meanStepOne` = the code as it is, `meanStepTwo` = a two-statement rewrite that reads a
+  view after it has been modified, `meanStepPure`, `MWF`); see the section comment there.
 -/
 import Gpv.Model.Accum
 namespace Gpv.Alias
@@ -212,4 +216,105 @@ def CSt.ofCov (c : Covariance K) : CSt K := ⟨c.mean.val.toList, c.cov.val.toLi
 def covStepPure (st : CSt K) (xs : List K) : CSt K := CSt.ofCov (st.toCov.push (.arr xs))
 
 end steps
+
+/-! ## ADDED: the plain `Mean` accumulator, whose read-out `value` IS its state array
+
+    `Mean.value` returns `self._val` itself, so `acc += acc.value[::-1]` (or `.T`, or
+    `np.broadcast_to(acc.value[0], d)`) hands `_accumulate_obj` a view of the very array it
+    is about to update:
+
+        def _accumulate_obj(self, obj):          # class Mean, the code as it is
+            self._n += 1
+            self._val += obj / self._n - self._val / self._n
+
+    numpy evaluates the whole right-hand side — reading `obj` and `_val` — into a temporary
+    BEFORE the in-place add, so every read sees the old array (`meanStepOne`).  A rewrite that
+    "saves a temporary" splits the statement in two,
+
+            self._val -= self._val / self._n     # step 1, in place
+            self._val += obj / self._n           # step 2
+
+    and in step 2 a view `obj` is read AFTER step 1 has changed the array (`meanStepTwo`).
+    Each single statement still evaluates its own right-hand side into a temporary before it
+    writes (numpy resolves operand/output overlap of one ufunc call by buffering), so the only
+    thing that changes is WHICH state a view shows.
+
+    * `MSt K`          : `val` (the array `self._val`) and `n` (`self._n`).
+    * `mReadObs`       : what reading the observation gives in a state (`readObs` on `val`).
+    * `meanStepOne`    : the one-statement code: read everything, then write.
+    * `meanStepTwo`    : the two-statement rewrite: a view is read from the modified array.
+    * `meanStepPure`   : the scalar model `Gpv.Mean.push` in every component.
+    * `MSt.Shaped`, `MWF` : well-formedness (decidable), as for `St` / `WF`.
+    * `MSt.toVal`      : the state as the array model `Mean (Val K)` of `Gpv.Model.Accum`.
+    Theorems relating these are in `Gpv.Props.C12Alias`, section 7. -/
+
+/-- state of an array `Mean` -/
+structure MSt (K : Type) where
+  val : List K
+  n : Nat
+  deriving Repr, DecidableEq
+
+section mwf
+variable {K : Type}
+
+/-- the state array has `d` components -/
+def MSt.Shaped (d : Nat) (st : MSt K) : Prop := st.val.length = d
+
+/-- state and observation fit the shape `(d,)` -/
+def MWF (d : Nat) (st : MSt K) (o : Obs K) : Prop := st.Shaped d ∧ o.Shaped d
+
+instance (d : Nat) (st : MSt K) : Decidable (st.Shaped d) := by
+  unfold MSt.Shaped; exact inferInstance
+instance (d : Nat) (st : MSt K) (o : Obs K) : Decidable (MWF d st o) := by
+  unfold MWF; exact inferInstance
+
+/-- reading an observation only looks at the state array: the `Mean` seen as the `mean`
+    part of a `St`, so that `readObs` / `gather` are the ones used for `Variance` -/
+def MSt.asSt (st : MSt K) : St K := ⟨st.val, [], st.n⟩
+
+/-- what reading the observation gives when the state array holds `st.val` -/
+def mReadObs [Inhabited K] (st : MSt K) (o : Obs K) : List K := readObs st.asSt o
+end mwf
+
+section msteps
+variable {K : Type} [Add K] [Sub K] [Mul K] [Div K] [NatCast K]
+
+/-- `a + b` -/
+def vadd (a b : List K) : List K := List.zipWith (· + ·) a b
+/-- `a / n` with the Python int `n` broadcast as a scalar -/
+def vdivn (a : List K) (n' : Nat) : List K := a.map fun x => x / (n' : K)
+
+section
+variable [Inhabited K]
+
+/-- `Mean._accumulate_obj` AS IT IS: one statement; `obj` and `_val` are both read (in the
+    old state) into the temporary `obj/_n - _val/_n`, which is then added in place.
+    The update is the same `meanUpd` that `stepRaw` uses for `self.mean += obj`. -/
+def meanStepOne (st : MSt K) (o : Obs K) : MSt K :=
+  -- self._n += 1
+  let n' := st.n + 1
+  -- self._val += obj / self._n - self._val / self._n     (obj read in the old state)
+  ⟨meanUpd st.val (mReadObs st o) n', n'⟩
+
+/-- the two-statement REWRITE (not in the library): `obj` is read only in step 2, after
+    step 1 has already written the array it may be a view of. -/
+def meanStepTwo (st : MSt K) (o : Obs K) : MSt K :=
+  -- self._n += 1
+  let n' := st.n + 1
+  -- self._val -= self._val / self._n                     (rhs from the old array, then in place)
+  let val1 := vsub st.val (vdivn st.val n')
+  let st1 : MSt K := ⟨val1, n'⟩                          -- memory after the in-place write
+  -- self._val += obj / self._n                           (obj read in the NEW state)
+  ⟨vadd val1 (vdivn (mReadObs st1 o) n'), n'⟩
+end
+
+/-- component-wise push: the scalar model `Gpv.Mean.push` in every component -/
+def meanStepPure (st : MSt K) (xs : List K) : MSt K :=
+  let rs : List (Mean K) := List.zipWith (fun v x => (⟨v, st.n⟩ : Mean K).push x) st.val xs
+  ⟨rs.map (·.val), st.n + 1⟩
+
+/-- the state as the existing array model `Mean (Val K)` sees it -/
+def MSt.toVal (st : MSt K) : Mean (Val K) := ⟨.arr st.val, st.n⟩
+
+end msteps
 end Gpv.Alias
